@@ -31,6 +31,7 @@ type Scenario struct {
 	OutputFile   string
 	Plugins      []*Script
 	PluginAPI    bool // --generate-plugin-api
+	SymlinkRoot  bool // the directory holding the Thrift files is reached through a symbolic link
 	// C17
 	FailModule int    // index of the file that fails (-1: none)
 	FailKind   string // "gen-reserved", "gen-goname" or "compile"
@@ -46,8 +47,8 @@ type Scenario struct {
 
 func (sc *Scenario) describe() []string {
 	var out []string
-	out = append(out, fmt.Sprintf("options: explicit-root=%v(%q) no-recurse=%v output-file=%q plugin-api=%v fail-module=%d(%s)",
-		sc.ExplicitRoot, sc.RootRel, sc.NoRecurse, sc.OutputFile, sc.PluginAPI, sc.FailModule, sc.FailKind))
+	out = append(out, fmt.Sprintf("options: explicit-root=%v(%q) no-recurse=%v output-file=%q plugin-api=%v fail-module=%d(%s) thrift-dir-is-a-symlink=%v",
+		sc.ExplicitRoot, sc.RootRel, sc.NoRecurse, sc.OutputFile, sc.PluginAPI, sc.FailModule, sc.FailKind, sc.SymlinkRoot))
 	out = append(out, fmt.Sprintf("simulator: strategy=%d switchP=%.2f preempt=%v chunkP0=%.2f fastPathFrameSize=%d pipeCapacity=%d", sc.Strat, sc.SwitchP, sc.Preempt, sc.ChunkP0, sc.FastPath, sc.PipeCap))
 	for _, p := range sc.Plugins {
 		out = append(out, "plugin "+p.String())
@@ -190,6 +191,7 @@ func genScenario(o world.Opts) *Scenario {
 		}
 	}
 	sc.NoRecurse = simrt.Flip("opt.no-recurse", 0.15)
+	sc.SymlinkRoot = simrt.Flip("layout.symlinked-thrift-dir", 0.1)
 	if simrt.Flip("opt.generate-plugin-api", 0.08) {
 		// the built-in generator behind --generate-plugin-api is written for plugin/api.thrift;
 		// its client template cannot render a service whose parent lives in another module
@@ -347,6 +349,16 @@ func RunOne(cfg simrt.Config, o world.Opts) *world.Result {
 		s.PipeCap = sc.PipeCap
 		if sc.FastPath > 0 {
 			simrt.SetKnob("frame.fastPathFrameSize", sc.FastPath)
+		}
+		if sc.SymlinkRoot {
+			// sb/thrift -> sb/thrift-real: every path the host is given goes through the link
+			os.RemoveAll(env.Thrift)
+			if err := os.MkdirAll(env.Thrift+"-real", 0755); err != nil {
+				panic(err)
+			}
+			if err := os.Symlink("thrift-real", env.Thrift); err != nil {
+				panic(err)
+			}
 		}
 		if err := writeProgram(env, sc.Prog); err != nil {
 			panic(err)
